@@ -6,7 +6,7 @@ from selkit import *
 ID = "C23"
 GEN = []
 THEOREMS = ["C23_extends", "C23_refl", "C23_refl_list", "C23_contains", "C23_add_simple", "C23_add_ancestor",
-            "C23_directions_agree", "C23_trans_compound_partial", "C23_trans_list_lift"]
+            "C23_run_clause", "C23_trans_compound_partial", "C23_trans_list_lift", "C23_trans_flat_lists_partial"]
 COQ_HEADER = ("From Coq Require Import List NArith ZArith.\nFrom RV Require Import Model.Sel Run.C23.\n"
               "Import ListNotations.\nLocal Open Scope list_scope.")
 RUN_EXPR = "Run.C23.run"
@@ -167,21 +167,21 @@ def gen_cases(ctx, tier):
     rng = ctx.rng
     cases = [{"kind": k, "qs": [[a, b] for a, b in qs]} for k, qs in CORPUS]
     n = 1 if tier == "quick" else 6
-    for _ in range(300 * n):                       # random pairs, related pairs
+    for _ in range(250 * n):                       # random pairs, related pairs
         a = gen_list(rng)
         b = spec_list(rng, a) if rng.random() < 0.7 else gen_list(rng)
         if rng.random() < 0.3:
             a, b = b, a
         cases.append({"kind": 0, "qs": [[a, b]]})
-    for _ in range(150 * n):                       # reflexivity
+    for _ in range(100 * n):                       # reflexivity
         a = gen_list(rng)
         cases.append({"kind": 1, "qs": [[a, [rng.choice(a)]]]})
         cases.append({"kind": 0, "qs": [[a, a]]})
-    for _ in range(400 * n):                       # contains + add simple / ancestors / parents
+    for _ in range(300 * n):                       # contains + add simple / ancestors / parents
         a = gen_list(rng)
         c = extend(rng, rng.choice(a), rng.choice([1, 1, 2, 3]))
         cases.append({"kind": 1, "qs": [[a, [c]]]})
-    for _ in range(700 * n):                       # transitivity chains
+    for _ in range(400 * n):                       # transitivity chains
         a = gen_list(rng, nmax=2)
         b = spec_list(rng, a)
         if rng.random() < 0.5:
